@@ -10,7 +10,8 @@ CASE_DEPS = ["theories/CompileTop.v", "theories/DenSrc.v", "theories/Checks.v"]
 RULE = ("stream size-mismatch: seeded random well-formed hierarchies in which one to three input/through ports of subroutines are "
         "re-declared with a constant, with a symbol already fixed by another port of the same subroutine, or with a compound "
         "expression over the subroutine's parameters and local variables; the real code compiles each and evaluates it under 4 "
-        "total assignments of small naturals (values 1..3, so that both agreeing and contradicting assignments are common); "
+        "total assignments of small naturals (values 1..3, so that both agreeing and contradicting assignments are common), each "
+        "supplied in one evaluate call and in two successive calls in both orders; "
         "inside Coq the outcome class of compile and of each evaluate is compared with the model (tie) and with the bottom-up "
         "denotation's verdict 'incoming integer size == declared size at every port' (spec: mismatch <=> BartiqCompilationError); "
         "non-trivial = at least one assignment on each side of a constraint; distinct by canonical JSON hash")
@@ -52,7 +53,7 @@ def redeclare(rng, r):
 def gen_cases(rng, n, max_depth):
     out = []
     while len(out) < n:
-        r = H.gen_hierarchy(rng, max_depth=rng.randint(1, max_depth), p_rep=0.05, qubits=True, p_through=0.2)
+        r = H.gen_hierarchy(rng, max_depth=rng.randint(1, max_depth), p_rep=0.0, qubits=True, p_through=0.2)   # no repetitions: their own compile errors are not about sizes
         if H.count_nodes(r) > 9 or H.count_nodes(r) < 2:
             continue
         if redeclare(rng, r) == 0:
@@ -75,9 +76,16 @@ def emit(pairs):
             # compile failed: sample assignments over the names the model would expose cannot be known; use the declared root inputs
             rng = lib.Rng(case["seed"])
             names = H.scope_names(case["routine"])
-            evals = [[{nm: rng.randint(1, 3) for nm in sorted(names)}, "n/a"] for _ in range(case["n_assign"])]
-        ev = E.coq_list([f"({E.coq_list([f'({E.coq_string(a)}, {E.coq_q(int(v))})' for a, v in sorted(asg.items())])}, {E.coq_string(cls if cls in ('ok', 'BartiqCompilationError', 'n/a') else 'internal')})"
-                         for asg, cls in evals])
+            evals = [[{nm: rng.randint(1, 3) for nm in sorted(names)}, "n/a", []] for _ in range(case["n_assign"])]
+        norm = lambda c: c if c in ("ok", "BartiqCompilationError", "n/a") else "internal"   # noqa: E731
+        flat = []
+        for item in evals:
+            asg, cls = item[0], item[1]
+            flat.append((asg, norm(cls)))
+            for sc in (item[2] if len(item) > 2 else []):
+                flat.append((asg, norm(sc)))       # the stepwise outcomes are judged by the same specification
+        ev = E.coq_list([f"({E.coq_list([f'({E.coq_string(a)}, {E.coq_q(int(v))})' for a, v in sorted(asg.items())])}, {E.coq_string(cls)})"
+                         for asg, cls in flat])
         items.append(f"(check_mismatch_case r{k} i{k} {ev})")
     lines.append("Definition results : list (list nat * list nat) :=\n " + E.coq_list(items) + ".\n")
     lines.append("Eval vm_compute in results.\n")
